@@ -267,6 +267,51 @@ func c15(c *an.Ctx) {
 		}
 	})
 
+	c.Check("R-REC", "prepareQuery records every non-nil (type, selection set) pair before it descends: no recursive call is reachable for a non-nil selection set without the memo insert (a fragment spread k times is validated once)", 2, func(o *an.O) {
+		fn := c.NeedFunc(gq, "prepareQuery")
+		var setParam, memoParam ssa.Value
+		for _, prm := range fn.Params {
+			if n := an.NamedOf(prm.Type()); n != nil && n.Obj().Name() == "SelectionSet" {
+				setParam = prm
+			}
+			if _, isMap := prm.Type().Underlying().(*types.Map); isMap {
+				memoParam = prm
+			}
+		}
+		an.Need(setParam != nil && memoParam != nil, "selection-set and memo parameters of prepareQuery")
+		var inserts []ssa.Instruction
+		an.Instrs(fn, func(i ssa.Instruction) {
+			if mu, ok := i.(*ssa.MapUpdate); ok && mu.Map == memoParam {
+				inserts = append(inserts, i)
+				o.Site(i)
+			}
+		})
+		if len(inserts) == 0 {
+			o.Fail(p.Pos(fn.Pos()), "prepareQuery never records a validated (type, selection set) pair: shared fragments are re-validated at every spread (exponential in the nesting depth)")
+			return
+		}
+		sim := &an.BoolSim{Fn: fn, Stop: map[ssa.Instruction]bool{}, Atom: func(v ssa.Value) (bool, bool) {
+			bo, ok := v.(*ssa.BinOp)
+			if !ok || (bo.Op != token.EQL && bo.Op != token.NEQ) {
+				return false, false
+			}
+			if (bo.X == setParam && isConstNil(bo.Y)) || (bo.Y == setParam && isConstNil(bo.X)) {
+				return bo.Op == token.NEQ, true // the selection set is not nil
+			}
+			return false, false
+		}}
+		for _, i := range inserts {
+			sim.Stop[i] = true
+		}
+		reached := sim.Run()
+		for _, rc := range an.CallsToFunc(fn, fn) {
+			o.Site(rc)
+			if reached[rc.Block()] {
+				o.FailAt(rc, "prepareQuery can descend from a non-nil selection set without having recorded it in the memo: a fragment that is spread k times is validated k times, and nested double spreads take exponential time")
+			}
+		}
+	})
+
 	c.Check("R-SIBLING", "graphql.Flatten and federation.mergeSameAlias merge same-alias selections only after rejecting pairs that differ in field name, arguments or in having sub-selections (detectConflicts covers only the top level)", 8, func(o *an.O) {
 		ruleSameAliasAgreement(c, o)
 	})
